@@ -304,7 +304,12 @@ func (v *fnVC) applyCall(c *ssa.CallCommon, x *ssa.Call, pos token.Pos, cond T) 
 	}
 	for _, r := range con.Requires {
 		t, _ := v.tr(r.E, env)
-		v.oblige("pre@"+key, r.Text, t, pos)
+		if con.Extern {
+			// a violated precondition of a library function is a run-time error (reflect panics, ...)
+			v.oblige("rte.extern@"+key, r.Text, t, pos)
+		} else {
+			v.oblige("pre@"+key, r.Text, t, pos)
+		}
 	}
 	// frame
 	if len(con.Modifies) > 0 {
@@ -749,6 +754,62 @@ func collectIdents(e Expr, out map[string]bool) {
 func (v *fnVC) loopHead(li *loopInfo, preds []*ssa.BasicBlock, conds []T) {
 	b := li.header
 	ls := v.loopSpec(li)
+	// inferred interval invariant of a range-over-slice loop: the hidden index starts at -1 and only grows
+	// (proved like any other invariant: entry and preservation obligations are generated for it)
+	for _, in := range b.Instrs {
+		phi, ok := in.(*ssa.Phi)
+		if !ok {
+			break
+		}
+		if phi.Comment != "" && phi.Comment != "rangeindex" && isInteger(phi.Type()) && len(phi.Edges) == 2 {
+			// counting loop: i starts at a non-negative constant and is only incremented: 0 <= i (proved as an invariant)
+			var init, step ssa.Value
+			for k, p := range b.Preds {
+				if v.isBack[[2]*ssa.BasicBlock{p, b}] {
+					step = phi.Edges[k]
+				} else {
+					init = phi.Edges[k]
+				}
+			}
+			ci, ok1 := init.(*ssa.Const)
+			bo, ok2 := step.(*ssa.BinOp)
+			if ok1 && ok2 && ci.Value != nil && bo.Op == token.ADD && bo.X == phi {
+				if cs, ok := bo.Y.(*ssa.Const); ok && cs.Value != nil && ci.Int64() >= 0 && cs.Int64() > 0 {
+					have := false
+					for _, inv := range ls.Invariants {
+						if strings.Contains(inv.Text, "<= "+phi.Comment) {
+							have = true
+						}
+					}
+					if !have {
+						if ex, err := parseExpr("0 <= " + phi.Comment); err == nil {
+							cp := &LoopSpec{Invariants: append([]Clause{{Text: "0 <= " + phi.Comment + " (inferred)", E: ex}}, ls.Invariants...), Decreases: ls.Decreases}
+							ls = cp
+							if v.con != nil {
+								v.con.Loops[li.ordinal] = cp
+							}
+						}
+					}
+				}
+			}
+		}
+		if phi.Comment == "rangeindex" {
+			have := false
+			for _, inv := range ls.Invariants {
+				if strings.Contains(inv.Text, "<= rangeindex") {
+					have = true
+				}
+			}
+			if !have {
+				ex, _ := parseExpr("-1 <= rangeindex && rangeindex < 9223372036854775807")
+				cp := &LoopSpec{Invariants: append([]Clause{{Text: "-1 <= rangeindex && rangeindex < MaxInt64 (inferred)", E: ex}}, ls.Invariants...), Decreases: ls.Decreases}
+				ls = cp
+				if v.con != nil {
+					v.con.Loops[li.ordinal] = cp
+				}
+			}
+		}
+	}
 	v.loopNamesUsed = map[string]bool{}
 	for _, c := range append(append([]Clause{}, ls.Invariants...), ls.Decreases...) {
 		collectIdents(c.E, v.loopNamesUsed)
